@@ -154,6 +154,7 @@ func ruleMPTReader(c *Ctx) {
 }
 
 func ruleRCWriters(c *Ctx) {
+	ruleRefCountResult(c)
 	allowed := map[string]string{
 		"pkg/core/mpt.(*Trie).Flush":                "non-RC mode: stores flushed node bytes",
 		"pkg/core/mpt.(*Trie).updateRefCount":        "folds the per-block delta into the stored count",
@@ -581,4 +582,59 @@ func ruleProofKey(c *Ctx) {
 	} else {
 		c.Fail("strict-walk", pos, "VerifyProof walks the path in non-strict mode: a proof for a prefix of the key would verify")
 	}
+}
+
+// ruleRefCountResult: Flush folds the pending delta into the stored counter through updateRefCount, which returns the
+// new stored value; that value must be written back to the entry's `initial` field, otherwise the next flush of the
+// same (uncollapsed) trie folds its delta into a stale base and deletes or deactivates a node that is still referenced.
+func ruleRefCountResult(c *Ctx) {
+	pk := c.P.Pkg("pkg/core/mpt")
+	if pk == nil {
+		return
+	}
+	n := 0
+	for _, fd := range c.P.AllFuncDecls() {
+		if fd.Pkg != pk || fd.Decl.Body == nil {
+			continue
+		}
+		f := c.P.NewFuncCFG(fd)
+		var stack []ast.Node
+		idx := 0
+		ast.Inspect(fd.Decl.Body, func(x ast.Node) bool {
+			if x == nil {
+				stack = stack[:len(stack)-1]
+				return true
+			}
+			stack = append(stack, x)
+			call, ok := x.(*ast.CallExpr)
+			if !ok || f.calleeSym(call) != "pkg/core/mpt.(*Trie).updateRefCount" {
+				return true
+			}
+			n++
+			idx++
+			key := fmt.Sprintf("%s.refcount-result#%d", FuncKey(fd.Obj), idx)
+			stored := false
+			for i := len(stack) - 2; i >= 0 && !stored; i-- {
+				if as, ok := stack[i].(*ast.AssignStmt); ok {
+					for k, rh := range as.Rhs {
+						if containsNode(rh, call) && k < len(as.Lhs) {
+							if se, ok := ast.Unparen(as.Lhs[k]).(*ast.SelectorExpr); ok && symOf(f.Info.ObjectOf(se.Sel)) == "pkg/core/mpt#initial" {
+								stored = true
+							}
+						}
+					}
+				}
+				if _, isStmt := stack[i].(ast.Stmt); isStmt {
+					break
+				}
+			}
+			if stored {
+				c.OK(key, c.P.Pos(call.Pos()), "the counter returned by updateRefCount becomes the entry's stored base")
+			} else {
+				c.Fail(key, c.P.Pos(call.Pos()), "the counter returned by updateRefCount is not written back to the entry's `initial` field: a second flush of the same trie computes the stored counter from a stale base")
+			}
+			return true
+		})
+	}
+	c.Floor("calls of updateRefCount", n, 1)
 }
